@@ -61,6 +61,38 @@ def twin_programs():
     tw.append(("nested struct: operand named like an outer field",
                "let s = mk(); let t = (T {{ zz: \"a\".into(), age: 1 }}, s); let {N} = 1; assert_struct!(t, (T {{ age: == {N}, .. }}, S {{ count: > {N}, .. }}));", "count"))
     tw.append(("set element comparing with a local named like a field", "let s = mk(); let {N} = 7; assert_struct!(s, S {{ items: #(== {N}, 8), .. }});", "items"))
+    # the parameter of a closure pattern is a binder the USER wrote: its scope is that closure and nothing else.  A caller local of
+    # the same name used by any other sub-pattern of the assertion (before or after the closure, beside it or nested elsewhere) must
+    # mean the caller's local: renaming the local (not the parameter) may not change anything
+    for cl in ("|n| *n > 0", "|n: &i32| *n > 0", "move |n| *n > 0", "|n| { let m = *n; m > 0 }"):
+        tw.append(("closure parameter `n` named like a caller local used by a LATER sibling field (%s)" % cl,
+                   "let s = mk(); let {N} = 50; assert_struct!(s, S {{ age: %s, count: == {N}, .. }});" % cl.replace("{", "{{").replace("}", "}}"), "n"))
+    tw.append(("closure parameter named like a caller local used by an EARLIER sibling field",
+               "let s = mk(); let {N} = 50; assert_struct!(s, S {{ count: == {N}, age: |n| *n > 0, .. }});", "n"))
+    tw.append(("closure parameter named like a caller local compared (<) by a later sibling",
+               "let s = mk(); let {N} = 99; assert_struct!(s, S {{ age: |n| *n > 0, count: < {N}, .. }});", "n"))
+    tw.append(("closure parameter named like a caller local used in a later closure's body",
+               "let s = mk(); let {N} = 50; assert_struct!(s, S {{ age: |n| *n > 0, count: |c| *c == {N}, .. }});", "n"))
+    tw.append(("closure parameter named like a caller local used by the next tuple element",
+               "let t = (3, 7); let {N} = 7; assert_struct!(t, (|n| *n > 0, == {N}));", "n"))
+    tw.append(("closure parameter named like a caller local used by the next slice element",
+               "let s = mk(); let {N} = 8; assert_struct!(s, S {{ items: [|n| *n > 0, == {N}], .. }});", "n"))
+    tw.append(("closure parameter named like a caller local used by the next variant argument",
+               "let o: Result<(i32, i32), ()> = Ok((3, 7)); let {N} = 7; assert_struct!(o, Ok((|n| *n > 0, == {N})));", "n"))
+    tw.append(("closure parameter named like a caller local used in a later set pattern",
+               "let s = mk(); let {N} = 7; assert_struct!(s, S {{ age: |n| *n > 0, items: #(== {N}, ..), .. }});", "n"))
+    tw.append(("closure parameter named like a caller local used as a later index argument",
+               "let s = mk(); let {N} = 0usize; assert_struct!(s, S {{ age: |n| *n > 0, items[{N}]: 7, .. }});", "n"))
+    tw.append(("closure parameter named like a caller local used as a later method argument",
+               "let s = mk(); let {N} = \"x\"; assert_struct!(s, S {{ age: |n| *n > 0, label.starts_with({N}): true, .. }});", "n"))
+    tw.append(("closure parameter named like a caller local used as a later Like expression",
+               "let s = mk(); let {N} = \"^h\"; assert_struct!(s, S {{ age: |n| *n > 0, re: =~ {N}, .. }});", "n"))
+    tw.append(("closure parameter named like a caller local used as a later map key",
+               "let s = mk(); let {N} = \"k\".to_string(); assert_struct!(s, S {{ age: |n| *n > 0, m: #{{ {N}: 1, .. }}, .. }});", "n"))
+    tw.append(("closure parameter in a nested struct named like a caller local used in a sibling struct",
+               "let s = mk(); let t = (T {{ zz: \"a\".into(), age: 1 }}, s); let {N} = 50; assert_struct!(t, (T {{ age: |n| *n > 0, .. }}, S {{ count: == {N}, .. }}));", "n"))
+    tw.append(("closure parameter under a wildcard struct named like a caller local used by a later field",
+               "let s = mk(); let {N} = 50; assert_struct!(s, _ {{ age: |n| *n > 0, count: == {N}, .. }});", "n"))
     # a struct field that is itself named like a helper: twin is the same shape with the field renamed
     return tw
 
